@@ -62,6 +62,10 @@ def naive_group_by(src_td, gb):
     for (_sc, c, typ) in gb:
       v = src_td.columns[c][i]
       base = (typ or "").split(":")[0]
+      if isinstance(v, objtypes.RaisedException):
+        raise Unspecified("group-by cell holds an error")
+      if base not in ("ChoiceList", "RefList") and isinstance(v, (list, tuple, dict)):
+        raise Unspecified("list value in a group-by column that is not of a list type")
       if base in ("ChoiceList", "RefList"):
         if v is None or (isinstance(v, (list, tuple)) and len(v) == 0):
           ks = ["" if base == "ChoiceList" else 0]
@@ -255,6 +259,10 @@ class C12Monitor(explore.Monitor):
     fails = []
     s_tables = {x[0] for x in summaries(e)}
     for (s_id, t_id, gb) in summaries(e):
+      if any(t and t.startswith(("Ref:", "RefList:")) and t.split(":", 1)[1] not in e.tables
+             for (_s, _c, t) in gb):
+        ST["unspecified"] += 1        # group-by column referring to a table that does not exist
+        continue
       if t_id in s_tables:
         ST["unspecified"] += 1        # a summary of a summary table: outside the bound
         continue
